@@ -94,6 +94,12 @@ type Exec struct {
 	records    map[string]Value
 	loopCuts   map[*ssa.Function]*loopCut
 
+	sharedWatch bool           // vxSharedWatch: writes to package-level variables need a held lock
+	lastPos     token.Pos      // position of the instruction being executed
+	joinModel   bool           // vxJoinModel: WaitGroups count, goroutines run lazily at Wait
+	wgCount     map[string]int // WaitGroup counters (join model)
+	goLive      int            // goroutines spawned under the join model that have not finished
+
 	allocWatch  int      // >0: inside a vxAllocs region
 	allocEvents []string // heap-allocation sites executed inside regions on this path
 }
@@ -374,6 +380,11 @@ func (e *Exec) global(g *ssa.Global) *Obj {
 	et := g.Type().(*types.Pointer).Elem()
 	o := e.newObj(e.zero(et), et, "global:"+g.String())
 	e.globals[g] = o
+	if g.Pkg == e.eng.pkg && !strings.HasPrefix(g.Name(), "vx") {
+		// storage of a package-level variable of the package under test (see sharedWrite)
+		o.shared = g.Name()
+		markShared(o.v, g.Name())
+	}
 	if g.Pkg != nil && !e.eng.initPkg[g.Pkg.Pkg.Path()] {
 		// package whose init we do not run: synthesise opaque sentinel errors
 		if types.Identical(et, e.eng.errorType) {
@@ -623,6 +634,9 @@ func (e *Exec) step(f *frame, in ssa.Instruction) {
 	if e.allocWatch > 0 {
 		e.allocInstr(in)
 	}
+	if p := in.Pos(); p.IsValid() {
+		e.lastPos = p
+	}
 	switch x := in.(type) {
 	case *ssa.DebugRef:
 	case *ssa.Alloc:
@@ -693,6 +707,9 @@ func (e *Exec) step(f *frame, in ssa.Instruction) {
 		}
 		fv, args := e.prepCall(f, &x.Call, x.Pos())
 		e.goroutines = append(e.goroutines, goRec{fv, args})
+		if e.joinModel {
+			e.goLive++
+		}
 	case *ssa.MakeSlice:
 		if e.spec > 0 {
 			panic(specAbort{"makeslice"})
@@ -775,8 +792,44 @@ func (e *Exec) load(pv Value, pos token.Pos) Value {
 	return v
 }
 
+// markShared tags the byte objects embedded in a global's value.
+func markShared(v Value, name string) {
+	switch x := v.(type) {
+	case *BArr:
+		x.b.shared = name
+	case StructV:
+		for _, f := range x {
+			markShared(f, name)
+		}
+	case ArrV:
+		for _, f := range x {
+			markShared(f, name)
+		}
+	}
+}
+
+// sharedWrite: under vxSharedWatch a write to the storage of a package-level variable with no mutex held
+// is reported: two goroutines executing the same code race on it (C18: "however many goroutines use the pool at once").
+func (e *Exec) sharedWrite(name string) {
+	if name == "" || !e.sharedWatch || e.spec > 0 {
+		return
+	}
+	for _, ms := range e.mutex {
+		if ms.held > 0 {
+			return
+		}
+	}
+	if len(e.dec) >= len(e.prefix) {
+		e.fail("lock-discipline", "package-level variable "+name+" is written with no lock held: concurrent callers race on it", e.lastPos, e.tb.True())
+	}
+	panic(pathEnd{"violation"})
+}
+
 func (e *Exec) store(pv Value, v Value, pos token.Pos) {
 	p := e.ptr(pv, pos)
+	if p.obj != nil {
+		e.sharedWrite(p.obj.shared)
+	}
 	if p.b != nil {
 		e.bstore(p.b, p.idx, v.(*Term))
 		return
@@ -1744,7 +1797,10 @@ func (e *Exec) zeroOrNil(t types.Type) Value {
 func (e *Exec) selectOp(f *frame, x *ssa.Select) Value {
 	tb := e.tb
 	if x.Blocking {
-		e.unsupported("blocking select")
+		if !e.joinModel {
+			e.unsupported("blocking select")
+		}
+		return e.blockingSelect(f, x)
 	}
 	res := Tuple{tb.K(64, ^uint64(0)), tb.False()}
 	for _, st := range x.States {
@@ -1763,6 +1819,67 @@ func (e *Exec) selectOp(f *frame, x *ssa.Select) Value {
 		}
 	}
 	return res
+}
+
+// blockingSelect (join model): goroutines only run lazily, at the WaitGroup.Wait that joins them, so a
+// blocking select is evaluated at that moment: every closed channel and every ticker channel is ready, the
+// choice among the ready cases is nondeterministic (forked); nothing ready = the goroutine blocks for ever.
+func (e *Exec) blockingSelect(f *frame, x *ssa.Select) Value {
+	tb := e.tb
+	var ready []int
+	for i, st := range x.States {
+		if st.Dir != types.RecvOnly {
+			e.unsupported("select send")
+		}
+		ch, _ := e.val(f, st.Chan).(*ChanV)
+		if ch != nil && (ch.closed || ch.ticker) {
+			ready = append(ready, i)
+		}
+	}
+	if len(ready) == 0 {
+		if len(e.dec) >= len(e.prefix) {
+			e.fail("deadlock", "select blocks for ever: no channel is closed and no ticker is running", x.Pos(), tb.True())
+		}
+		panic(pathEnd{"deadlock"})
+	}
+	pick := ready[e.choose(len(ready))]
+	ch := e.val(f, x.States[pick].Chan).(*ChanV)
+	if !ch.closed {
+		// a tick: the number of ticks delivered in one activation is bounded like a loop unwinding
+		f.visits[x.Block()]++
+		if f.visits[x.Block()] > e.unwind {
+			e.cuts++
+			if e.unwindCut {
+				panic(pathEnd{"unwind-cut"})
+			}
+			e.notes = append(e.notes, fmt.Sprintf("UNWIND-INSUFFICIENT at %s (limit %d)", e.eng.pos(x.Pos()), e.unwind))
+			panic(pathEnd{"unwind-insufficient"})
+		}
+	}
+	res := Tuple{tb.K(64, uint64(pick)), tb.Bool(!ch.closed)}
+	for _, st := range x.States {
+		if st.Dir == types.RecvOnly {
+			res = append(res, e.zero(st.Chan.Type().Underlying().(*types.Chan).Elem()))
+		}
+	}
+	return res
+}
+
+// wgWait (join model): Wait with a positive counter lets the pending goroutines run, one after the other to
+// completion; a counter that stays positive means Wait never returns.
+func (e *Exec) wgWait(key string, pos token.Pos) {
+	for e.wgCount[key] > 0 && len(e.goroutines) > 0 {
+		g := e.goroutines[0]
+		e.goroutines = e.goroutines[1:]
+		e.callValue(g.fn, g.args, pos)
+		e.goLive--
+	}
+	if e.wgCount[key] > 0 {
+		if len(e.dec) >= len(e.prefix) {
+			e.fail("deadlock", "WaitGroup.Wait never returns: the counter stays positive after every goroutine has run", pos, e.tb.True())
+		}
+		panic(pathEnd{"deadlock"})
+	}
 }
 
 // ---------- calls from instructions ----------
